@@ -1,6 +1,6 @@
 SPECIFICATION Spec
 CONSTANTS
-  Families = {"B", "C", "D"}
+  Families = {"TT"}
   Lattice = FALSE
 INVARIANTS
   Agree
